@@ -141,7 +141,7 @@ type Check interface {
 
 var registry = map[string]Check{}
 
-func Register(c Check) { registry[c.ID()] = c }
+func Register(c Check)    { registry[c.ID()] = c }
 func Get(id string) Check { return registry[id] }
 func IDs() []string {
 	var ids []string
